@@ -91,11 +91,17 @@ def c_ufrac(ctx, it, cfg):
 
 
 @REG.contract('mobility_matrix/volume-fixed-frame', [MOB + ':mobility_matrix', MOB + ':x_to_u_frac', MOB + ':mobility_from_composition_set'],
-              configs=[dict(s, name=s['name'] + (',vacancy-poor' if vp else ''), vp=vp) for s in SYSTEMS for vp in (False, True) if vp is False or 'C' in s['els']])
+              configs=[dict(s, name=s['name'] + (',vacancy-poor' if vp else '') + (',corrected' if cr else ''), vp=vp, cr=cr) for s in SYSTEMS for vp in (False, True) for cr in (False, True)
+                       if (vp is False or 'C' in s['els']) and not (vp and cr)])
 def c_mobmat(ctx, it, cfg):
     els = cfg['els']
     v, cs, mods, M, calls, seen, sub, ins = mk_cs(ctx, it, els)
-    Mm = mods.env['mobility_matrix'](cs, calls, None, cfg['vp'])
+    corr = None
+    if cfg['cr']:
+        # user-supplied mobility correction factors: the matrix is built from correction x mobility, exactly like the tracer diffusivity
+        corr = {e: real(ctx, 'corr_' + e, lambda x: x > 0) for e in els}
+        M = {e: corr[e] * M[e] for e in els}
+    Mm = mods.env['mobility_matrix'](cs, calls, corr, cfg['vp'])
     n = len(els)
     xs = cs.X[els.index(sub[0])]
     for e in sub[1:]:
@@ -199,6 +205,17 @@ def c_dmudx(ctx, it, cfg):
         for d, b in enumerate(rest):
             ctx.prove('dmu[%s]/dx[%s] total = partial differences' % (els[a], els[b]), eq(tot.get(c, d), (par.get(a, b) - par.get(a, r)) - (par.get(r, b) - par.get(r, r))))
     ctx.prove('canary/not-zero', eq(tot.get(0, 0), 0), expect='refuted')
+    # the SAME composition-set object re-solved in place (what kawin does when it re-uses cached composition sets): the derivative follows the current Hessian
+    Hs2 = [[real(ctx, 'H2_%d_%d' % (i, j)) for j in range(size)] for i in range(size)]
+    H2 = NP.array(Hs2)
+    mod.env['hessian'] = lambda mu, c: H2
+    tot2 = mod.env['dMudX']('MU2', cs, ref)
+    i0 = n + 1 + 1
+    inv2 = NP.linalg.inv(H2)
+    for c, a in enumerate(rest):
+        for d, b in enumerate(rest):
+            want = (-inv2.get(i0 + a, i0 + b) + inv2.get(i0 + a, i0 + r)) - (-inv2.get(i0 + r, i0 + b) + inv2.get(i0 + r, i0 + r))
+            ctx.prove('re-solved-set: dmu[%s]/dx[%s] from the CURRENT Hessian' % (els[a], els[b]), eq(tot2.get(c, d), want))
 
 
 @REG.contract('inverseMobility/consistent-pieces', [MOB + ':inverseMobility'], configs=[dict(name='AL-CR-NI', els=['AL', 'CR', 'NI'])])
